@@ -63,6 +63,9 @@ def run(tier: str, seed: int) -> int:
         obs.append({"id": i + 1, "kind": kind, "shas": [r["sha"] for r in recs], "internal": any(r["internal"] for r in recs),
                     "iserror": recs[0]["text"].startswith(("Sigma", "EXC")) or kind in ("c07", "c19")})
     verdicts = chk.judge("Judge_C20", obs)
+    from .. import corrupt as _corrupt
+
+    chk.binding_selftest("Judge_C20", obs, verdicts, _corrupt.c20)
     by_id = {}
     for i, o in enumerate(obs):
         texts = sorted({res[i]["text"] for res in results})
